@@ -128,6 +128,9 @@ def _case():
         "dek": opt32, "mac": opt32,
         "nonce": st.one_of(st.none(), st.binary(min_size=16, max_size=16), st.binary(min_size=12, max_size=12).map(lambda b: b + b"\xf0\xff\xff\xff")),
         "timestamp": st.one_of(st.none(), st.integers(946684800, 4102444800)),
+        # the same instant handed over as a naive local time, as a UTC-aware or as an offset-aware datetime, with or without a fraction
+        "ts_form": st.sampled_from(["naive", "naive", "utc", "offset"]), "ts_off_min": st.integers(-720, 840),
+        "ts_us": st.one_of(st.just(0), st.integers(1, 999999)),
         "padding": st.sampled_from(["none", "zero", "given"]), "padding_bytes": st.binary(min_size=8, max_size=8),
         "rsa_bits": st.sampled_from([2048, 2048, 3072, 4096]), "chain": st.lists(st.integers(0, 7), min_size=1, max_size=3, unique=True),
         "rkh_slot": st.integers(0, 3), "other_roots": st.lists(st.integers(0, 7), max_size=3),
@@ -279,6 +282,15 @@ def _vstr(nums) -> str:
     return ".".join("%d" % n for n in nums)
 
 
+def _timestamp(case):
+    """The generated instant as the kind of datetime object the case names (whole seconds are what the header keeps)."""
+    import datetime
+
+    ts, form = case["timestamp"], case.get("ts_form", "naive")
+    tz = {"naive": None, "utc": datetime.timezone.utc}.get(form, datetime.timezone(datetime.timedelta(minutes=case.get("ts_off_min", 0))))
+    return datetime.datetime.fromtimestamp(ts, tz=tz).replace(microsecond=case.get("ts_us", 0))
+
+
 def run_case(case, o: Oracle) -> None:
     import datetime
 
@@ -308,7 +320,7 @@ def run_case(case, o: Oracle) -> None:
             dek=bytes(case["dek"]) if case["dek"] else None,
             mac=bytes(case["mac"]) if case["mac"] else None,
             nonce=bytes(case["nonce"]) if case["nonce"] else None,
-            timestamp=datetime.datetime.fromtimestamp(ts) if ts is not None else None,
+            timestamp=_timestamp(case) if ts is not None else None,
             padding=padding,
         )
         kwargs = dict(product_version=_vstr(product), component_version=_vstr(component), build_number=case["build"], advanced_params=adv)
@@ -554,6 +566,8 @@ def _compare_sections(sub: str, got: list, want: list, case, o: Oracle) -> None:
 
 def _classify(case, o: Oracle, fmt: str) -> None:
     o.label("fmt:" + fmt)
+    if case["timestamp"] is not None:
+        o.label("ts:" + case.get("ts_form", "naive"), "ts_fraction" if case.get("ts_us", 0) else "ts_whole")
     secs = case["sections"]
     ncmd = sum(len(s["commands"]) for s in secs)
     unaligned = any(c["c"] == "load" and len(c["data"]) % 16 for s in secs for c in s["commands"])
